@@ -3,6 +3,7 @@
 //!   reg mismatch <RP|RS|RR|RQ> <RP|RS|RR|RQ>  register the first role on a fresh topic, then the second on the same
 //!   reg abuse <RP|RQ|RR> <frame>;<frame>…    register in that role, then send those frames; afterwards the topic
 //!                                            must still serve well-behaved library clients
+//!   reg abandon <role> <n>                   n registrations whose peer stops reading before it registers and then leaves
 //!   reg stall <n>                            a subscriber on topic A that never reads, > 1.25 MB published to A,
 //!                                            n further registrations on A; then a pub/sub round trip on topic B
 //!   reg big <RP|RQ> <L>                      a raw publisher / requestor sends one Message frame whose payload length
@@ -326,6 +327,25 @@ async fn run_case(addr: SocketAddr, certs: &Certs, t: &[&str]) -> anyhow::Result
             drop(subs);
             Ok(format!("{} a={} b={} probe=ok", answers.join(" "), seen[0], seen[1]))
         }
+        "abandon" => {
+            // registrations that die half-way: the peer refuses to read (STOP_SENDING on its receiving side) before it sends
+            // its registration, so the acknowledgement cannot be written; it then ends the stream. Nothing of such a
+            // registration may stay behind: a genuine peer in the same role on the same topic is served afterwards.
+            let n: usize = t[3].parse()?;
+            let (ns, tp) = fresh();
+            let conn = raw(addr, certs).await?;
+            for _ in 0..n {
+                let (send, mut recv) = conn.open_bi().await?;
+                let _ = recv.stop(0u32.into());
+                let mut s = selium_protocol::BiStream::from((send, recv));
+                let _ = s.send(reg_frame(t[2], &ns, &tp)).await;
+                let _ = s.finish().await;
+                tokio::time::sleep(Duration::from_millis(30)).await;
+            }
+            tokio::time::sleep(Duration::from_millis(150)).await;
+            let probe = if t[2] == "RP" || t[2] == "RS" { probe_pubsub(addr, certs, &ns, &tp).await } else { probe_reqrep(addr, certs, &ns, &tp).await };
+            Ok(format!("probe={probe}"))
+        }
         "stall" => {
             let n: usize = t[2].parse()?;
             let (ns, tp) = fresh();
@@ -346,6 +366,15 @@ async fn run_case(addr: SocketAddr, certs: &Certs, t: &[&str]) -> anyhow::Result
                 if tokio::time::timeout(Duration::from_millis(300), publ.send(chunk.clone())).await.is_err() { stuck += 1; } else { stuck = 0; }
                 if stuck >= 4 { break; }
             }
+            // a stream opened on the stalled topic itself is still answered (the topic is stalled, not the server)
+            let open_on_stalled = {
+                let c = raw(addr, certs).await?;
+                let mut s = raw_stream(&c).await?;
+                s.send(reg_frame("RS", &ns, &tp)).await?;
+                let a = match tokio::time::timeout(Duration::from_secs(4), answer(&mut s)).await { Ok(a) => a, Err(_) => "timeout".to_string() };
+                std::mem::forget(s); std::mem::forget(c);
+                a
+            };
             // queue more registrations on the stalled topic than its channel holds
             let mut conns = vec![];
             let mut queued = vec![];
@@ -381,8 +410,13 @@ async fn run_case(addr: SocketAddr, certs: &Certs, t: &[&str]) -> anyhow::Result
                 for h in hs { if h.await.map(|r| r != "ok").unwrap_or(true) { bad += 1; } }
                 if bad == 0 { "ok".to_string() } else { format!("FAILED:{bad}_of_40_topics") }
             };
+            // the peer that queued up for the stalled topic goes on using another topic on the same connection for longer
+            // than any internal hand-over deadline could be: its other streams are not taken down with the stuck one
+            tokio::time::sleep(Duration::from_millis(5600)).await;
+            let (ns5, tp5) = fresh();
+            let later = match conns.last() { Some(c) => probe_raw_on(c, &ns5, &tp5).await, None => "ok".into() };
             drop(queued); drop(stalled); drop(conns);
-            Ok(format!("{a} probe={probe} queued-peer={same} blocked-publisher={flooder} other-names={wide}"))
+            Ok(format!("{a} {open_on_stalled} probe={probe} queued-peer={same} blocked-publisher={flooder} other-names={wide} queued-peer-later={later}"))
         }
         other => anyhow::bail!("bad registry case {other}"),
     }
@@ -420,6 +454,7 @@ pub fn run(cfg: &Cfg) {
         for l in [max - 20, max - 9, max - 8, max - 1, max, max + 1] { cases.push(format!("reg big RP {l}")); }
         for l in [max - 100, max - 28, max - 27, max - 9, max, max + 1] { cases.push(format!("reg big RQ {l}")); }
         for first in ["RP", "RR"] { for second in ["pub", "sub", "req"] { cases.push(format!("reg lib {first} {second}")); } }
+        for role in ["RR", "RQ", "RP", "RS"] { cases.push(format!("reg abandon {role} 3")); }
         cases.push("reg stall 130".into());
         cases.push("reg stall 420".into());
         // isolation between names that are close to each other: the same text with the separator elsewhere, swapped
@@ -456,10 +491,13 @@ pub fn run(cfg: &Cfg) {
             Ok(Err(e)) => (format!("ERROR {}", format!("{e:?}").replace('\n', " ").chars().take(160).collect::<String>()), Err(format!("{e}"))),
             Ok(Ok(line)) => {
                 let mut m = Ok(());
-                let probe_ok = line.split(' ').filter(|x| x.contains('=') && ["probe", "queued-peer", "blocked-publisher", "other-names"].contains(&x.split('=').next().unwrap())).all(|x| x.ends_with("=ok"));
-                if !probe_ok { dead = line.contains("hang"); m = Err(format!("C11/C17: after `{}` well-behaved clients are no longer served: {line}", t[1..].join(" ").chars().take(80).collect::<String>())); }
+                let probe_ok = line.split(' ').filter(|x| x.contains('=') && ["probe", "queued-peer", "blocked-publisher", "other-names", "queued-peer-later"].contains(&x.split('=').next().unwrap())).all(|x| x.ends_with("=ok"));
+                // whom a dead probe speaks for: a topic left unusable (C11); for the stall scenario other topics (C17); a replier
+                // slot that a dead registration keeps occupied (C10)
+                let tag = if t[1] == "stall" { "C11/C17" } else if t[1] == "abandon" && t[2] == "RR" { "C10/C11" } else { "C11" };
+                if !probe_ok { dead = line.contains("hang"); m = Err(format!("{tag}: after `{}` well-behaved clients are no longer served: {line}", t[1..].join(" ").chars().take(80).collect::<String>())); }
                 if m.is_ok() {
-                    let answers: Vec<&str> = line.split(' ').filter(|x| !x.starts_with("probe=") && !x.starts_with("queued-peer=") && !x.starts_with("blocked-publisher=") && !x.starts_with("other-names=") && !x.starts_with("a=") && !x.starts_with("b=") && !x.starts_with("lib=")).collect();
+                    let answers: Vec<&str> = line.split(' ').filter(|x| !x.starts_with("probe=") && !x.starts_with("queued-peer=") && !x.starts_with("blocked-publisher=") && !x.starts_with("other-names=") && !x.starts_with("queued-peer-later=") && !x.starts_with("a=") && !x.starts_with("b=") && !x.starts_with("lib=")).collect();
                     for a in &answers {
                         if *a == "timeout" { m = Err(format!("C11: a stream was neither served nor refused nor closed: {line}")); }
                     }
